@@ -3,7 +3,7 @@ import builtins
 
 import asyncstdlib as A
 
-from .world import P, World, Driver, Item, finish, fail, same, same_seq, call_sync, Suspended, reset_run, _no_tracing
+from .world import P, World, Driver, Item, Opaque, finish, fail, same, same_seq, call_sync, Suspended, reset_run, _no_tracing
 from .tools import AGGS, Data, Opts
 
 PROPERTY = "C02"
@@ -34,7 +34,11 @@ def h_agg(k0: int, k1: int, k2: int, k3: int, k4: int, k5: int, n0: int, bad: in
     keys = [k0, k1, k2, k3, k4, k5]
     items = []
     for j in range(n0):
-        items.append(Item(keys[j], "0.%d" % j, bad=(j == bad)))
+        # allbad: with a key function the items themselves are never compared by the stdlib
+        if P("allbad", False):
+            items.append(Opaque(keys[j], "0.%d" % j))
+        else:
+            items.append(Item(keys[j], "0.%d" % j, bad=(j == bad)))
     d = Data([items], [p0], [b0, b1])
     fl = P("fl", "agen")
     o = Opts(fl=[fl] * 4, ffl=P("ffl", "def"))
@@ -376,6 +380,9 @@ def jobs(tier):
             for b1 in (False, True):
                 add("h_agg", agg=agg, N=(3 if q else 4), fl=fl, b1=b1)
         add("h_agg", agg="reduce", N=N, fl=fl)
+        if fl != "list":
+            for agg in ("nlargest", "nsmallest", "sorted", "min", "max"):
+                add("h_agg", agg=agg, N=3, fl=fl, b1=True, allbad=True)
     add("h_agg", agg="list", N=3, fl="agen")
     add("h_agg", agg="tuple", N=3, fl="iter")
     add("h_agg", agg="list", N=3, fl="list")
